@@ -19,7 +19,7 @@ func (g *Gen) generate(id string) {
 		if !blockHasProp(b, id) {
 			continue
 		}
-		if b.Loop >= 0 || b.Context {
+		if b.Loop >= 0 || b.Context || b.Handler {
 			continue // verified as part of their function / case
 		}
 		if _, ok := b.flag("trusted"); ok && b.Case == "" {
